@@ -1386,7 +1386,7 @@ func main() {
 	// by) — before the first result line, after it, with and without a blank-line header: the server's
 	// labels are permanent, every record stays filed under the upload's own ids
 	tamper := []string{"upload-part: 20200101.1/0", "upload: 20200101.9", "upload-part:", "upload:", "upload-file: evil.txt",
-		"upload-file:", "upload-time: 1999-01-01T00:00:00Z", "by: mallory", "by:", "upload-part: ID/0"}
+		"upload-file:", "upload-time: yesterday", "by: mallory", "by:", "upload-part: ID/0"}
 	for i := 0; i < hx.N(12, 120); i++ {
 		uid := g.uid()
 		var b strings.Builder
